@@ -715,9 +715,11 @@ fn oracle_bulk(ops: &[String], outs: &[String]) -> Option<OracleFail> {
 fn script_unrel(rng: &mut Rng, _tier: Tier, ex: &mut dyn FnMut(&str) -> String) {
     let umem = rng.pick(&[200_000usize, 2400, 3600, 4800, 6000, 7200, 9600]);
     let u = Chan { id: 0, kind: "U", max_mem: umem, resend_us: 0 };
-    let r = Chan { id: 1, kind: "RO", max_mem: 200_000, resend_us: 100_000 };
+    // a long resend time keeps acknowledged-late reliable data in flight without it being due again
+    let r = Chan { id: 1, kind: "RO", max_mem: 200_000, resend_us: rng.pick(&[100_000u64, 100_000, 5_000_000]) };
     let order = if rng.chance(1, 2) { vec![u.clone(), r.clone()] } else { vec![r.clone(), u.clone()] };
     let budget = rng.pick(&[2500u64, 3000, 3700, 4900, 6000, 7300, 10_000]);
+    let big_rel = rng.chance(1, 3);
     ex(&cfg_line(budget, &order, &order));
     ex("cli 0");
     ex("add 100");
@@ -739,6 +741,12 @@ fn script_unrel(rng: &mut Rng, _tier: Tier, ex: &mut dyn FnMut(&str) -> String) 
                 let m = rand_small(rng, 300);
                 ex(&format!("send c0 {} {}", rng.pick(&[0u8, 1]), hex(&m)));
             }
+            if big_rel && rng.chance(1, 3) {
+                // a sliced reliable message that stays unacknowledged (no acks flow in this profile)
+                let n = rng.range(1201, 3000) as usize;
+                let m = rng.payload(n);
+                ex(&format!("send c0 1 {}", hex(&m)));
+            }
         }
         ex("upd c0 101000");
         ex("upd srv 101000");
@@ -750,6 +758,8 @@ fn script_unrel(rng: &mut Rng, _tier: Tier, ex: &mut dyn FnMut(&str) -> String) 
         drain(ex, "s100", 0, 1000);
         drain(ex, "s100", 1, 1000);
     }
+    ex("stat c0");
+    ex("stat s100");
 }
 
 // ---------------------------------------------------------------------------------------------
@@ -1861,7 +1871,7 @@ pub fn profiles() -> Vec<Profile> {
     },
     Profile {
         name: "rn-unrel",
-        props: &["C03", "C14", "C09"],
+        props: &["C03", "C14", "C09", "C11"],
         cases: |t| if t == Tier::Quick { 200 } else { 3000 },
         new_world,
         script: script_unrel,
@@ -2721,6 +2731,106 @@ fn oracle_c14(ops: &[String], outs: &[String]) -> Option<OracleFail> {
     None
 }
 
+/// C14 / C11 (work conservation on unreliable channels): "each later channel gets what earlier ones
+/// left" and "what does not fit is dropped" — so an unreliable message that FITS what the flush left
+/// unused must go out. Sound lower bound of what was available at the message's turn: the budget minus
+/// everything the whole flush carried (reliable slices counted as a full SLICE_SIZE each, as the sender
+/// charges them). Judged only for endpoints a later `stat` shows connected (disconnection is final).
+fn oracle_unrel_work_conserving(ops: &[String], outs: &[String]) -> Option<OracleFail> {
+    let mut cfg = Cfg::default();
+    // endpoint -> per unreliable channel: (queued messages (hex), memory in use)
+    let mut queued: HashMap<String, HashMap<u8, (Vec<String>, usize)>> = HashMap::new();
+    let mut pending: Vec<(usize, String, OracleFail)> = vec![]; // verdicts waiting for a `stat <who>` = connected
+    for (i, (op, out)) in ops.iter().zip(outs.iter()).enumerate() {
+        let t: Vec<&str> = op.split(' ').collect();
+        match t[0] {
+            "cfg" => {
+                if let Some(c) = parse_cfg(op) {
+                    cfg = c
+                }
+            }
+            "bcast" | "bcastx" | "lnew" | "lproc" | "rem" | "sdisc" | "sdiscall" | "disc" | "disct" => return None,
+            "send" if t.len() == 4 && out == "ok" => {
+                let ch: u8 = t[2].parse().ok()?;
+                let list = if t[1].starts_with('c') { &cfg.client } else { &cfg.server };
+                if let Some(c) = list.iter().find(|c| c.0 == ch) {
+                    if c.1 == "U" {
+                        let len = if t[3] == "-" { 0 } else { t[3].len() / 2 };
+                        let e = queued.entry(t[1].to_string()).or_default().entry(ch).or_insert((vec![], 0));
+                        if e.1 + len <= c.2 {
+                            e.1 += len;
+                            e.0.push(t[3].to_string());
+                        }
+                    }
+                }
+            }
+            "flush" if t.len() == 2 => {
+                let who = t[1].to_string();
+                let q = match queued.remove(&who) {
+                    Some(q) => q,
+                    None => continue,
+                };
+                let mut carried: HashMap<u8, Vec<String>> = HashMap::new();
+                let mut parts: HashMap<(u8, u64), Vec<(usize, Vec<u8>)>> = HashMap::new();
+                let mut used = 0u64;
+                for p in flush_packets(out) {
+                    match decode(p) {
+                        Some(WPacket::SmallUnreliable { channel_id, messages, .. }) => {
+                            for m in messages {
+                                used += m.len() as u64;
+                                carried.entry(channel_id).or_default().push(if m.is_empty() { "-".to_string() } else { hex(&m) });
+                            }
+                        }
+                        Some(WPacket::UnreliableSlice { channel_id, slice, .. }) => {
+                            used += slice.payload.len() as u64;
+                            parts.entry((channel_id, slice.message_id)).or_default().push((slice.slice_index, slice.payload.to_vec()));
+                        }
+                        Some(WPacket::SmallReliable { messages, .. }) => used += messages.iter().map(|(_, m)| m.len() as u64).sum::<u64>(),
+                        Some(WPacket::ReliableSlice { .. }) => used += 1200,
+                        Some(WPacket::Ack { .. }) => {}
+                        None => return None,
+                    }
+                }
+                for ((ch, _), mut v) in parts {
+                    v.sort();
+                    let m: Vec<u8> = v.into_iter().flat_map(|x| x.1).collect();
+                    carried.entry(ch).or_default().push(hex(&m));
+                }
+                for (ch, (msgs, _)) in q.iter() {
+                    let mut got = carried.remove(ch).unwrap_or_default();
+                    for m in msgs {
+                        if let Some(pos) = got.iter().position(|g| g == m) {
+                            got.remove(pos);
+                            continue;
+                        }
+                        let len = if m == "-" { 0 } else { (m.len() / 2) as u64 };
+                        if cfg.budget >= used && cfg.budget - used >= len {
+                            pending.push((
+                                i,
+                                who.clone(),
+                                OracleFail {
+                                    at: i,
+                                    signature: "unreliable-fits-but-dropped".into(),
+                                    what: format!("{} dropped a {}-byte unreliable message on channel {} although the flush carried only {} of its {} budget bytes", who, len, ch, used, cfg.budget),
+                                },
+                            ));
+                        }
+                    }
+                }
+            }
+            "stat" if t.len() == 2 && out == "connected" => {
+                if let Some(pos) = pending.iter().position(|p| p.1 == t[1]) {
+                    let mut f = pending.remove(pos).2;
+                    f.at = i;
+                    return Some(f);
+                }
+            }
+            _ => {}
+        }
+    }
+    None
+}
+
 /// C15 (not-early part + never-after-release): consecutive transmissions of the same reliable
 /// message / slice are at least resend_time apart on the sender's clock.
 fn oracle_c15(ops: &[String], outs: &[String]) -> Option<OracleFail> {
@@ -2910,6 +3020,8 @@ pub fn oracles() -> Vec<Oracle> {
         Oracle { prop: "C08", name: "acks-are-the-set", engines: &["rn-sweep-acks"], check: oracle_sweep_acks },
         Oracle { prop: "C06", name: "no-panic-bounded", engines: &["rn-"], check: oracle_c06 },
         Oracle { prop: "C09", name: "query-api", engines: &["rn-pair"], check: oracle_cansend },
+        Oracle { prop: "C14", name: "unreliable-work-conserving", engines: &["rn-unrel", "rn-pair", "rn-timing", "rn-long"], check: oracle_unrel_work_conserving },
+        Oracle { prop: "C11", name: "unreliable-work-conserving", engines: &["rn-unrel", "rn-pair", "rn-timing", "rn-long"], check: oracle_unrel_work_conserving },
         Oracle { prop: "C09", name: "unreliable-in-budget", engines: &["rn-unrel"], check: oracle_unrel_budget },
         Oracle { prop: "C03", name: "unreliable-in-budget", engines: &["rn-unrel"], check: oracle_unrel_budget },
         Oracle { prop: "C09", name: "accounting", engines: &["rn-pair", "rn-hostile", "rn-regress", "rn-long", "rn-timing", "rn-acks", "rn-tight", "rn-sweep-slices"], check: oracle_c09 },
